@@ -59,6 +59,8 @@
 (*    hit, near, expect]>>]    (the real direction is d * 2^e)                *)
 (*    count  - returned count = callbacks = count with nil callback           *)
 (*    hits   - t >= 0, hit point on the surface (1e-7), unit outward normal     *)
+(*             (that it is THE surface normal is only asked of rays in general  *)
+(*             position: through an apex / rim the direction is ill-defined)    *)
 (*             that is the surface normal                                     *)
 (*    first  - FirstRayCollision exists iff count > 0 and is the minimum       *)
 (*    parity - closed shape: count odd iff Contains(origin); only rays in       *)
@@ -279,7 +281,7 @@ BallExact(b) ==
 ColHolds(c) ==
     CASE c = "panic"  -> R.panic = ""
       [] c = "count"  -> \A i \in 1..Len(R.rays) : R.rays[i].n = R.rays[i].ncb /\ R.rays[i].n = R.rays[i].nnil
-      [] c = "hits"   -> \A i \in 1..Len(R.rays) : LET r == R.rays[i] IN r.tpos /\ r.onsurf /\ r.nunit /\ r.nout /\ r.nsurf
+      [] c = "hits"   -> \A i \in 1..Len(R.rays) : LET r == R.rays[i] IN r.tpos /\ r.onsurf /\ r.nunit /\ r.nout /\ (r.nsurf \/ ~r.gp)
       [] c = "first"  -> \A i \in 1..Len(R.rays) : R.rays[i].firstok
       [] c = "parity" -> \A i \in 1..Len(R.rays) : ~R.rays[i].gp \/ ((R.rays[i].n % 2 = 1) = R.rays[i].inside)
       [] c = "ball"   -> \A i \in 1..Len(R.balls) : LET b == R.balls[i] IN
